@@ -297,7 +297,7 @@ Proof.
     assert (Hpb : p sb = false).
     { unfold p. rewrite D_seed. destruct (Hdef sb Hsb) as [x [y [Hx _]]]. rewrite Hx. simpl.
       destruct x as [|x]; [apply D_zero in Hx; congruence | reflexivity]. }
-    apply connected_from_root with sb; [apply filter_In; split; [assumption | unfold q; idtac; match goal with |- ?g => idtac g end; rewrite Hpb; reflexivity]|].
+    apply connected_from_root with sb; [apply filter_In; split; [assumption | change (negb (p sb) = true); rewrite Hpb; reflexivity]|].
     intros v Hv. apply filter_In in Hv. destruct Hv as [HvB Hq]. unfold q in Hq. apply negb_true_iff in Hq.
     destruct (Hdef v HvB) as [x [y [_ Hy]]]. eapply Hk; eassumption.
 Qed.
